@@ -580,6 +580,11 @@ func (f *Formatter) renderOpenTag(n *html.Node) string {
 
 	for _, attr := range n.Attr {
 		buf.WriteString(" ")
+		if attr.Namespace != "" {
+			// xlink:href, xml:lang on foreign (SVG, MathML) elements
+			buf.WriteString(attr.Namespace)
+			buf.WriteString(":")
+		}
 		buf.WriteString(attr.Key)
 		if attr.Val != "" {
 			buf.WriteString("=\"")
